@@ -5,7 +5,7 @@ import ast
 
 from ..model import ENFA, NFA, DFA, FABASE, BOX, RSA
 from .common import site_of
-from .flow import (both_answers, innermost_loop, block_atoms, assignments, executed_calls, Oblig, calls, events, receivers, START, FINAL, STATES, SYMBOLS, DELTA_SYM, DELTA_EPS, SELF, P,
+from .flow import (lower_block, both_answers, innermost_loop, block_atoms, assignments, executed_calls, Oblig, calls, events, receivers, START, FINAL, STATES, SYMBOLS, DELTA_SYM, DELTA_EPS, SELF, P,
                    result_locs, deps_of, arg_deps)
 
 EXPLANATION = (
@@ -180,7 +180,8 @@ def hopcroft_pending_rule(eng, ob, oblig):
             ob.rep.error("R1", oblig, fi.qname, "pending-class-queues-new-half",
                          "the pending test is not inside the loop over the symbols; the rule cannot follow it", site=site)
             return
-        atoms = block_atoms(lp.body)
+        body = lower_block(lp.body)        # named test results and conditional expressions made explicit
+        atoms = block_atoms(body)
         key = ast.dump(cev.node)
         models = assignments(atoms)
         if key not in atoms or models is None:
@@ -189,18 +190,29 @@ def hopcroft_pending_rule(eng, ob, oblig):
                          site=site_of(prog, fi, cev.node))
             return
         old_half = ast.unparse(cev.node.args[0]) if cev.node.args else None
-        ins_nodes = {id(ev.node): ev for ev in inserts}
+        ins_nodes = {(ev.node.lineno, ev.node.col_offset): ev for ev in inserts}
         for asg in models:
-            done = [n for n in executed_calls(lp.body, asg) if id(n) in ins_nodes]
+            done = [n for n in executed_calls(body, asg) if (getattr(n, "lineno", None), getattr(n, "col_offset", None)) in ins_nodes]
             n_models += 1
             if not done:
                 ok, why = False, "on some path through the loop body no half of the split is queued"
-            elif asg[key] and not any(n.args and ast.unparse(n.args[0]) != old_half for n in done):
+            elif asg[key] and not any(n.args and _certainly_not(fn, n.args[0], old_half) for n in done):
                 ok, why = False, ("when the split class %s is still pending only %s itself is queued again: the new half is "
                                   "never used as a splitter and distinguishable states stay merged" % (old_half, old_half))
     ob.decide("R1", oblig, fi, "pending-class-queues-new-half", ok,
               "when the split class is pending in the splitter list the new half is queued too, and some half is queued on "
               "every path (%d valuations of the branch conditions)" % n_models, why, summ, site=site)
+
+
+def _certainly_not(fn, arg, old_half) -> bool:
+    """the queued class is certainly not the split class itself: another expression, and - when it is a local - one that
+    cannot hold the split class (`smaller = min(c, new, key=len)` may)"""
+    if ast.unparse(arg) == old_half:
+        return False
+    if isinstance(arg, ast.Name):
+        from .flow import may_be_names
+        return old_half not in may_be_names(fn, arg.id)
+    return True
 
 
 def _closure_ctrl(summ):
